@@ -165,8 +165,23 @@ type GenReplay struct {
 	Op    string   `json:"op"`
 }
 
+// Interference, when set, names the operations of a world that are addressed to ANOTHER collection.
+// Under property C11 a violation (of any property) on a path containing such operations is re-run
+// with them removed; if it then disappears, the other collection's operation changed what this
+// collection returns - a C11 violation, attributed precisely.
+var Interference = map[string]func(op string) bool{
+	"views": func(op string) bool { return strings.HasPrefix(op, "B.") },
+}
+
 // RunGenBFS explores a generic world breadth-first up to depth.
 func RunGenBFS(rep *Report, pool *Pool, kind string, cfg Config, depth, tier int, deadline time.Time) {
+	type cand struct {
+		path []string
+		op   string
+		v    Violation
+	}
+	var cands []cand
+	interferes := Interference[kind]
 	label := kind + "/" + ifs(cfg.Disk, "disk", "mem")
 	frontier := [][]string{nil}
 	seen := map[string]bool{}
@@ -212,6 +227,14 @@ func RunGenBFS(rep *Report, pool *Pool, kind string, cfg Config, depth, tier int
 					if rep.AddViolation(v, rp) {
 						mine = true
 					}
+					if rep.Prop == "C11" && interferes != nil && v.Prop != "C11" && len(cands) < 40 {
+						for _, po := range path {
+							if interferes(po) {
+								cands = append(cands, cand{append([]string(nil), path...), tr.Op, v})
+								break
+							}
+						}
+					}
 				}
 				if tr.Abnormal != "" {
 					rep.AddViolation(Violation{Prop: "C20", Op: kind + ":" + tr.Op, Pre: "seq", Field: abnormalKind(tr.Abnormal), Detail: tr.Abnormal}, rp)
@@ -247,6 +270,40 @@ func RunGenBFS(rep *Report, pool *Pool, kind string, cfg Config, depth, tier int
 			break
 		}
 		frontier = next
+	}
+	// differential attribution of interference (C11)
+	if len(cands) > 0 {
+		jobs := make([]any, len(cands))
+		for i, cd := range cands {
+			var filtered []string
+			for _, po := range cd.path {
+				if !interferes(po) {
+					filtered = append(filtered, po)
+				}
+			}
+			jobs[i] = GenJob{Kind: kind, Cfg: cfg, Path: filtered, Tier: 1, Only: []string{cd.op}}
+		}
+		pool.Map("gen", jobs, 300*time.Second, func(o JobOutcome) {
+			cd := cands[o.Index]
+			var res GenJobResult
+			if o.Err != "" || json.Unmarshal(o.Data, &res) != nil || res.Err != "" {
+				return // the filtered path is not executable (an operation became inapplicable): no verdict
+			}
+			still := false
+			for _, tr := range res.Trans {
+				for _, v := range tr.Violations {
+					if v.Sig() == cd.v.Sig() {
+						still = true
+					}
+				}
+			}
+			if !still {
+				rep.AddViolation(Violation{Prop: "C11", Op: kind + ":" + cd.op, Pre: "interference", Field: cd.v.Field,
+					Detail: fmt.Sprintf("after %v, %s: %s -- and this happens only because of the operations addressed to another collection: without them (same path otherwise) it does not", cd.path, cd.op, cd.v.Detail)},
+					GenReplay{"gen", kind, cfg, cd.path, cd.op})
+			}
+		})
+		trans += len(cands)
 	}
 	rep.States += len(seen)
 	rep.Transitions += trans
